@@ -228,7 +228,7 @@ theorem expirePending_spec (s : State) (c : CtxId) (x : Ctx) (h : Inv s) (hx : M
     (hnp : (expirePending s c x).1.panic = none) :
     Inv (expirePending s c x).1.s ∧ EFrame s (expirePending s c x).1.s ∧
     (∀ r, r ∈ (expirePending s c x).1.s.activeI → r.ctx ≠ c) ∧ Completed x (expirePending s c x).2 ∧
-    (expirePending s c x).2.state = x.state ∧ (expirePending s c x).2.total = x.total := by
+    (expirePending s c x).2.state = x.state ∧ (expirePending s c x).2.total = x.total ∧ (expirePending s c x).2.mod = x.mod := by
   unfold expirePending at hnp ⊢
   split
   · rename_i hb
@@ -242,7 +242,7 @@ theorem expirePending_spec (s : State) (c : CtxId) (x : Ctx) (h : Inv s) (hx : M
       exact ⟨this.1, this.2.1⟩
     have hnd := nodup_sortReqIds _ (List.Nodup.sublist (List.filter_sublist (p := fun r => decide (r.ctx = c ∧ r.batch = x.batch))) h.x.activeNodup)
     obtain ⟨i1, i2, i3⟩ := expireFold_inv x c _ s h hx hids hnd hnp
-    refine ⟨i1, i2, ?_, ⟨rfl, rfl, rfl, rfl, rfl, rfl, rfl, rfl⟩, rfl, rfl⟩
+    refine ⟨i1, i2, ?_, ⟨rfl, rfl, rfl, rfl, rfl, rfl, rfl, rfl⟩, rfl, rfl, rfl⟩
     intro r hr hrc
     obtain ⟨hr1, hr2⟩ := (i3 r).mp hr
     apply hr2
@@ -261,7 +261,7 @@ theorem expirePending_spec (s : State) (c : CtxId) (x : Ctx) (h : Inv s) (hx : M
       cases hh : x.bstate with
       | completed => rfl
       | running => rw [hh] at hb; simp at hb
-    refine ⟨h, ⟨rfl, rfl, rfl, rfl, rfl, rfl, rfl, rfl, rfl, rfl, rfl, rfl⟩, ?_, ⟨rfl, rfl, rfl, rfl, rfl, rfl, rfl, hbc⟩, rfl, rfl⟩
+    refine ⟨h, ⟨rfl, rfl, rfl, rfl, rfl, rfl, rfl, rfl, rfl, rfl, rfl, rfl⟩, ?_, ⟨rfl, rfl, rfl, rfl, rfl, rfl, rfl, hbc⟩, rfl, rfl, rfl⟩
     intro r hr hrc
     obtain ⟨y, hy, hyb⟩ := h.x.activeRunning r hr
     rw [hrc, hx] at hy; injection hy with hy; subst hy
